@@ -28,7 +28,7 @@ LEVEL = "exploration"
 RULE = (
     "per table (300..900 PSMs, tie-free features, spectrum multiplicity 1..4, rows shuffled or grouped by spectrum, "
     "dedup on/off, learners linear / svc / an order-sensitive online learner / a predict_proba-only k-NN): baseline vs variants {each of the six chunk-size constants in "
-    "{1,2,3,7,n-1,n,n+1,ceil(n/2), sizes leaving a 1-row last chunk}, workers {2,3,4,8,16} with seeded delays, "
+    "{1,2,3,7,n-1,n,n+1,ceil(n/2), sizes leaving a 1-row last chunk}, workers {2,3,4,8,16} with seeded delays inside every joblib task function (vf.instruments.scheduler) and inside fit/score, "
     "Parquet row groups {1,3,prime,n,default}, pairs of constants, and Parquet or several workers combined with a chunk size}; env class: the same comparison with MOKAPOT_* variables in fresh "
     "interpreters. Non-trivial = a variant whose chunk size is smaller than the table, or >1 worker with >=2 "
     "threads observed, or Parquet input; distinct = (table seed, variant)."
@@ -217,7 +217,11 @@ def run_inproc(case):
             if v["kind"] == "chunk":
                 pass
             elif v["kind"] == "workers":
-                spec.update(workers=v["workers"], delay=v["delay"])
+                spec.update(workers=v["workers"], delay=v["delay"], perturb=int(rng.integers(1 << 30)),
+                            chunk_sizes=dict(spec.get("chunk_sizes") or {}))
+                # several tasks per Parallel call are needed for the schedule to matter
+                spec["chunk_sizes"].setdefault("CHUNK_SIZE_READ_ALL_DATA", max(2, n // 7))
+                spec["chunk_sizes"].setdefault("CONFIDENCE_CHUNK_SIZE", max(2, n // 5))
             else:
                 pq = psm.write_parquet(tab, d / f"t{vi}.parquet", row_group_size=v["row_group"])
                 spec["paths"] = [str(pq)]
@@ -232,8 +236,12 @@ def run_inproc(case):
                 res.violate(diff[0], v.get("const") or v["kind"], variant=v, detail=diff[1], **extra)
             if v["kind"] == "workers":
                 res.count("multiworker_runs")
-                res.count("threads_seen_in_multiworker_runs", out.get("threads", 0))
-            if (v.get("const") and v["value"] < n) or v["kind"] == "parquet" or (v["kind"] == "workers" and out.get("threads", 0) >= 2):
+                res.count("threads_seen_in_multiworker_runs", out.get("sched_threads", 0))
+                res.count("task_kinds_finished_out_of_order", out.get("sched_out_of_order_kinds", 0))
+                res.count("scheduled_tasks", out.get("sched_tasks", 0))
+                if out.get("sched_signature"):
+                    res.setdefault("sched_signatures", []).append(out["sched_signature"])
+            if (v.get("const") and v["value"] < n) or v["kind"] == "parquet" or (v["kind"] == "workers" and out.get("sched_threads", 0) >= 2):
                 nt += 1
                 keys.append(f"{case['seed']}/{case['index']}/{json.dumps(v, sort_keys=True)}")
             if len(res["violations"]) >= 4:
